@@ -94,6 +94,11 @@ pub struct World<K: SimKey> {
     pub set_monitor_expectations: bool,
     /// the stored pre-create choice (set at creation)
     pub created_pre_create: bool,
+    /// the property under check: oracle failures of *other* properties that do not invalidate the
+    /// continuation are recorded in `foreign` instead of ending the run (so that the property's own
+    /// oracles still get to see the consequences)
+    pub own: String,
+    pub foreign: std::cell::RefCell<Option<Failure>>,
 }
 
 /// the orphan scan result in comparable form
@@ -193,6 +198,8 @@ impl<K: SimKey> World<K> {
             op_index: 0,
             set_monitor_expectations: true,
             created_pre_create: wl.cfg.pre_create,
+            own: String::new(),
+            foreign: std::cell::RefCell::new(None),
         }
     }
 
@@ -263,7 +270,7 @@ impl<K: SimKey> World<K> {
                 if let (Some(s), true) = (&self.last_scan, self.exact_files) {
                     let expect_total = self.expected_blobs().len();
                     if !s.orphaned.is_empty() || !s.invalid.is_empty() || !s.missing.is_empty() || !s.corrupted.is_empty() || !s.staging.is_empty() || s.total_blobs != expect_total {
-                        return Err(fail(&["C07", "C08"], "scan-not-clean", i, format!("start-up scan after a clean restart reports garbage or wrong totals: {s:?}, expected total_blobs={expect_total}")));
+                        return self.soft(Err(fail(&["C07", "C08"], "scan-not-clean", i, format!("start-up scan after a clean restart reports garbage or wrong totals: {s:?}, expected total_blobs={expect_total}"))));
                     }
                 }
                 Ok(())
@@ -330,7 +337,25 @@ impl<K: SimKey> World<K> {
     }
 
     /// C07: cas/ holds exactly one file per referenced content, staging/ is empty (model's disk)
+    /// see `own`: a failure of another property's oracle is recorded, not returned
+    pub fn soft(&self, r: Result<(), Failure>) -> Result<(), Failure> {
+        match r {
+            Err(f) if !self.own.is_empty() && !f.props.iter().any(|p| *p == self.own) => {
+                let mut g = self.foreign.borrow_mut();
+                if g.is_none() {
+                    *g = Some(f);
+                }
+                Ok(())
+            }
+            other => other,
+        }
+    }
+
     pub fn check_files(&self, i: usize) -> Result<(), Failure> {
+        self.soft(self.check_files_hard(i))
+    }
+
+    pub fn check_files_hard(&self, i: usize) -> Result<(), Failure> {
         if !self.exact_files {
             return Ok(());
         }
@@ -559,8 +584,8 @@ impl<K: SimKey> World<K> {
                     let ok = with_sim(|s| s.disk.bytes(&path).map(|b| b == data.as_slice()));
                     match ok {
                         Some(true) => {}
-                        Some(false) => return Err(fail(&["C18", "C06"], "blob-bytes", i, format!("file at {path} does not hold the committed content"))),
-                        None => return Err(fail(&["C18", "C04"], "blob-path", i, format!("no file at the checker-computed path {path} after finish()"))),
+                        Some(false) => self.soft(Err(fail(&["C18", "C06"], "blob-bytes", i, format!("file at {path} does not hold the committed content"))))?,
+                        None => self.soft(Err(fail(&["C18", "C04"], "blob-path", i, format!("no file at the checker-computed path {path} after finish()"))))?,
                     }
                 }
                 self.check_files(i)
@@ -711,6 +736,10 @@ impl<K: SimKey> World<K> {
 
     /// stats().index.serialized_size_bytes equals the byte length of `index` (0 if absent)
     pub fn check_index_size(&self, i: usize) -> Result<(), Failure> {
+        self.soft(self.check_index_size_hard(i))
+    }
+
+    pub fn check_index_size_hard(&self, i: usize) -> Result<(), Failure> {
         let cas = self.cas.as_ref().unwrap();
         let reported = interpose::enter(|| cas.stats().index.serialized_size_bytes);
         let actual = with_sim(|s| s.disk.bytes("db/index").map_or(0, |b| b.len() as u64));
